@@ -1,5 +1,6 @@
 import OtelVerif.Common.Line
 import OtelVerif.Model.C16
+import OtelVerif.Model.C16Pool
 /-!
 driver for C16 (model `c16`).
 
@@ -82,6 +83,9 @@ structure S where
   implEnc : String := ""
   implWire : Nat := 0
   fails : List String := []   -- reversed
+  pool : PState := PState.init  -- client-side writer pools (Model/C16Pool.lean) of this case
+  poolNext : Nat := 0           -- next call id
+  poolWant : Option (String × String × Bool) := none   -- (type, `want`, may the call fail?) of the pending pcompress op
 
 def showOutcome (hashed : Bool) : Outcome → String
   | .rejected st => s!"obs rejected {st}"
@@ -100,10 +104,36 @@ def streamOfObs (b : Bytes) (n : Nat) (h : Option UInt64) (ok : Bool) : Stream :
       | [] => ⟨List.replicate n 1, ok⟩
       | x :: rest => ⟨(x + 1) :: (rest ++ List.replicate (n - (rest.length + 1)) 0), ok⟩
 
+/-- the pool model's library parameter in the driver: an opaque, key- and input-dependent token (`enc key body`) -/
+def poolEnc : PKey → Bytes → Bytes := fun k b => (s!"{k.typ}/{k.level}|").toUTF8.toList ++ b
+
+/-- one `compress` call on the pool model, run to the end on top of the case's pool state; returns the new state, the call's
+result and whether ITS buffer holds `enc key body` -/
+def poolStep (ps : PState) (t : Nat) (key : PKey) (body : Option Bytes) (failAt : Option Nat) (cf : Bool) :
+    PState × Option Bool × Bool :=
+  let ps' := runLabels poolEnc ps (seqCall t 0 key body failAt cf)
+  (ps', (ps'.calls t).bind (·.result), ps'.bufs t == some (poolEnc key (body.getD [])))
+
 def handler : Handler S where
   init := {}
   onOp := fun s toks =>
     match toks with
+    | "pcompress" :: rest =>
+      match kv rest "typ", kvInt rest "lvl", kv rest "n", kv rest "h", kvNat rest "nil", kvInt rest "fail", kvNat rest "cf",
+            kvNat rest "rt", kv rest "want" with
+      | some typ, some lvl, some n, some h, some nl, some fail, some cf, some rt, some want =>
+        let key : PKey := ⟨typ, lvl⟩
+        let body : Option Bytes := if nl = 1 then none else some (s!"{n}:{h}").toUTF8.toList
+        let failAt : Option Nat := if fail < 0 then none else some fail.toNat
+        let (ps', res, okBuf) := poolStep s.pool s.poolNext key body failAt (cf = 1)
+        -- through the round-tripper the header is the one `clientSend` puts on the request
+        let ce := if rt = 1 then ((clientSend (fun _ => ⟨id, fun x => some x⟩) typ "" []).map (·.encoding)).getD "?" else typ
+        let s := { s with pool := ps', poolNext := s.poolNext + 1, poolWant := some (typ, want, fail ≥ 0 || cf = 1) }
+        match res with
+        | some true => (s, [if okBuf then s!"obs pcompress err=0 ce={ce} out={want}" else "obs pcompress err=0 out=model-buffer-is-not-enc-of-own-body"])
+        | some false => (s, ["obs pcompress err=1"])
+        | none => (s, ["obs bad-op"])
+      | _, _, _, _, _, _, _, _, _ => (s, ["obs bad-op"])
     | "cfg" :: rest =>
       match (kv rest "algos").bind parseAlgos, kvInt rest "max", (kv rest "ct").bind unhex with
       | some algos, some mx, some ct =>
@@ -212,6 +242,21 @@ def handler : Handler S where
       | _, _ => { s with fails := "sig=C16/harness/unparsable-sent" :: s.fails }
     | _ :: "cfg" :: _ => s
     | _ :: "view" :: _ => s
+    | _ :: "pcompress" :: rest =>
+      -- `C16_pool_output` evaluated on the implementation: a compress call that returned nil left `enc key body` (the output of a
+      -- fresh writer built by the key's constructor, `want=`) in its own buffer, under its own Content-Encoding
+      match s.poolWant, kv rest "err" with
+      | some (typ, want, canFail), some e =>
+        let s := { s with poolWant := none }
+        if e = "1" then
+          if canFail then s else { s with fails := s!"sig=C16/client/pooled-compress-failed-on-a-healthy-body/{typ}" :: s.fails }
+        else if canFail then { s with fails := s!"sig=C16/client/pooled-compress-swallowed-a-body-error/{typ}" :: s.fails }
+        else if kv rest "out" ≠ some want then
+          { s with fails := s!"sig=C16/client/pooled-writer-output-is-not-the-encoding-of-its-own-body/{typ} want={want} got={(kv rest "out").getD "?"}" :: s.fails }
+        else if kv rest "ce" ≠ some typ then
+          { s with fails := s!"sig=C16/client/content-encoding-is-not-the-configured-algorithm configured={typ} on-the-wire={(kv rest "ce").getD "?"}" :: s.fails }
+        else s
+      | _, _ => { s with fails := "sig=C16/harness/pcompress-obs-without-op" :: s.fails }
     | _ :: "getbody" :: v :: _ =>
       if v = "equal" || v = "absent" then s   -- no GetBody = not replayable: a changed tie, not a violated property
       else { s with fails := s!"sig=C16/client/getbody-differs-from-body outgoing-request-getbody={v}" :: s.fails }
